@@ -3,6 +3,7 @@
 //! case  := <flags> <document>            document = decimal code points joined by ',' ("-" = empty)
 //!          flags: `d` default; `x` = expand entity references even when the reference graph
 //!          is cyclic (only used in isolated mode: the real code overflows its stack, D09);
+//!          `q` = timing-only (build, compact print, re-parse; no dump, no entity value is read);
 //!          `n` = no pretty-printing (the line ends after `re=`; used for very deep documents,
 //!          whose indented form is quadratic in the depth); `p` is read by the model only
 //!          (behave like the pinned code: no repairs)
@@ -313,6 +314,20 @@ pub fn case(line: &str) -> String {
         Ok(d) => d,
         Err(e) => return format!("rest={} err:{}", rest_n, class(&e)),
     };
+    if flags.contains('q') {
+        // timing-only run: build, print compactly and re-parse the print; no value of an entity
+        // reference is read (their size may be exponential in the DTD by design of the input)
+        let dom = match xml_dom::XmlDocument::from_raw(&text) {
+            Ok((_, d)) => d,
+            Err(e) => return format!("rest={} from_raw disagrees: {:?}", rest_n, e),
+        };
+        let ser = dom.to_string();
+        let re = match xml_dom::XmlDocument::from_raw(&ser) {
+            Ok((r, _)) => format!("ok;rest={}", r.chars().count()),
+            Err(_) => "rej".to_string(),
+        };
+        return format!("rest={} built|serlen={}|re={}", rest_n, ser.chars().count(), re);
+    }
     let mut out = format!("rest={} {}", rest_n, dump(&info.borrow(), force));
     // the path the tools take
     let dom = match xml_dom::XmlDocument::from_raw(&text) {
